@@ -67,8 +67,12 @@ static int verdictCode(const std::string & msg, const std::string & name)
   static const std::pair<const char *, int> ends[] = {{" is too low.", 2}, {" is too high.", 3}, {" is OK.", 1},
     {" is uncertain.", 4}, {" is high.", 5}, {" timeout.", 6}};
   if (msg.empty()) {return 0;}
-  if (msg == "no data received from " + NAME) {return 7;}
-  for (auto & e : ends) {if (msg == name + e.first) {return e.second;}}
+  if (msg.find("no data received") != std::string::npos) {return 7;}
+  for (auto & e : ends) {
+    std::string end = e.first;
+    if (msg.size() >= end.size() && msg.compare(msg.size() - end.size(), end.size(), end) == 0 && msg.find(NAME) != std::string::npos) {return e.second;}
+  }
+  (void)name;
   return 8;
 }
 static const char * VN[] = {"none", "ok", "low", "high", "uncertain", "reliable", "timeout", "nodata", "other"};
